@@ -55,9 +55,16 @@ func c06Scenarios(c *vlib.Ctx) []c06Scenario {
 			out = append(out, c06Scenario{Kind: "destroy", State: st, Force: f.f, AllowRun: f.a, KeepTasks: f.k, Kill: "killed", Hooks: "none", NTasks: 2})
 		}
 	}
-	for _, h := range []string{"calls", "tasks", "tasks2w", "pending-call"} {
+	for _, h := range []string{"calls", "tasks", "tasks2w", "tasks-same-weight", "pending-call"} {
 		for _, st := range []string{"CONFIGURED", "RUNNING"} {
 			out = append(out, c06Scenario{Kind: "destroy", State: st, Force: st == "RUNNING", Kill: "killed", Hooks: h, NTasks: 2})
+		}
+	}
+	// an executor / agent of the environment fails first (its tasks lose their executor or agent id),
+	// then the environment is destroyed, with and without keep-tasks
+	for _, f := range []string{"exec-failed", "agent-failed"} {
+		for _, keep := range []bool{true, false} {
+			out = append(out, c06Scenario{Kind: "destroy", State: "CONFIGURED", Force: true, KeepTasks: keep, Kill: "killed", Hooks: f, NTasks: 3})
 		}
 	}
 	for _, stg := range []string{"unknown-template", "template-error", "detector-conflict", "undeployable", "staging-failed", "configure-error", "hook-failure"} {
@@ -133,6 +140,10 @@ func c06Run(c *vlib.Ctx, idx int, sc c06Scenario) {
 		wf.Tasks = append(wf.Tasks, coresim.TaskSpec{Name: "hk0", Host: "host1", Critical: false, Mode: "basic", Trigger: "DESTROY-1", Timeout: "5s"},
 			coresim.TaskSpec{Name: "hk1", Host: "host2", Critical: false, Mode: "basic", Trigger: "DESTROY+1", Timeout: "5s"})
 		wf.Calls = append(wf.Calls, coresim.CallSpec{Name: "dh1", Func: "verif.Snapshot()", Trigger: "DESTROY+0", Critical: false, Vars: map[string]string{"verif_tag": "destroy-hook", "verif_snapshot": "true"}})
+	case "tasks-same-weight":
+		// a DESTROY and an after_DESTROY hook task at the same weight
+		wf.Tasks = append(wf.Tasks, coresim.TaskSpec{Name: "hk0", Host: "host1", Critical: false, Mode: "basic", Trigger: "DESTROY", Timeout: "5s"},
+			coresim.TaskSpec{Name: "hk1", Host: "host2", Critical: false, Mode: "basic", Trigger: "after_DESTROY", Timeout: "5s"})
 	case "pending-call":
 		// started at before_CONFIGURE, awaited at a point that is never reached
 		wf.Calls = append(wf.Calls, coresim.CallSpec{Name: "pc", Func: "verif.Slow()", Trigger: "before_CONFIGURE", Await: "after_STOP_ACTIVITY+50", Timeout: "3s", Critical: false, Vars: map[string]string{"verif_tag": "pending", "verif_sleep_ms": "20"}})
@@ -286,6 +297,20 @@ func c06Run(c *vlib.Ctx, idx int, sc c06Scenario) {
 				return
 			}
 		}
+		if sc.Hooks == "exec-failed" || sc.Hooks == "agent-failed" {
+			// the non-critical task t1 (host2) loses its executor / agent; the environment is untouched
+			for _, t := range s.Master.Tasks() {
+				if strings.HasSuffix(t.RolePath, ".t1") {
+					if sc.Hooks == "exec-failed" {
+						s.Master.ExecutorFailure(t.AgentID, t.ExecutorID, false)
+					} else {
+						s.Master.AgentFailure(t.AgentID, false)
+					}
+				}
+			}
+			waitQuiet(s, 300*time.Millisecond, 5*time.Second)
+			c.Count("destroys_after_executor_or_agent_failure", 1)
+		}
 		ctx, cancel := coresim.Ctx(apiTimeout)
 		t0 := time.Now()
 		_, derr := s.Client.DestroyEnvironment(ctx, &pb.DestroyEnvironmentRequest{Id: envID, Force: sc.Force, AllowInRunningState: sc.AllowRun, KeepTasks: sc.KeepTasks})
@@ -365,6 +390,24 @@ func c06Run(c *vlib.Ctx, idx int, sc c06Scenario) {
 			// the statement only exempts keep-tasks destroys from the must-kill clause; a forced
 			// fallback that kills anyway is recorded, not judged
 			c.Count("killed_despite_keep_tasks", 1)
+		}
+	}
+	// no task the core still knows may name the vanished environment as its owner
+	for _, t := range s.Master.Tasks() {
+		if holderID != "" && t.EnvID == holderID {
+			continue
+		}
+		ctx, cancel := coresim.Ctx(20 * time.Second)
+		gt, gerr := s.Client.GetTask(ctx, &pb.GetTaskRequest{TaskId: t.ID})
+		cancel()
+		if gerr != nil || gt.GetTask() == nil {
+			continue // not in the roster any more
+		}
+		c.Count("gettask_checks", 1)
+		if eid := gt.GetTask().GetEnvId(); eid != "" {
+			if _, listed := ids[eid]; !listed {
+				fail("STILL-OWNED", fmt.Sprintf("task %s (%s) still names the vanished environment %s as its owner (GetTask)", t.RolePath, t.ID, eid))
+			}
 		}
 	}
 	ctx, cancel = coresim.Ctx(20 * time.Second)
